@@ -79,7 +79,7 @@ def check_policy_table_freshness(ctx):
                     ctx.check(not (fills and outside), 'C03.R10', '%s|%s stored per iteration' % (qn, v.id), site,
                               '%s is allocated inside the loop that fills and stores it' % v.id,
                               '%s is allocated at line %s, outside the loop at line %d that fills it and stores it under a per-iteration key: every key then refers to the same table, holding the union of all entries' % (v.id, [o.lineno for o in outside], lp.lineno))
-    ctx.count('policy_parser_per_iteration_tables', n_sites, 2)
+    ctx.count('policy_parser_per_iteration_tables', n_sites, 1)
 
 
 def check_decision_points(ctx, m, rule, fnames):
